@@ -65,8 +65,8 @@ ITEM_PATHS = [["u", "c1", "a.ics"], ["u", "c1", "b.ics"], ["u", "c2", "a.ics"], 
 def gen_policy(rng):
     default = rng.choice(["", "", "", "RrWw", "r", "i", "w"])
     table = {}
-    for user in ("u", "v", ""):
-        for p in PATHS:
+    for user in ("u", "v", "", "x"):
+        for p in PATHS + ([["x"], ["x", "c1"]] if user == "x" else []):
             if rng.random() < 0.55:
                 table[(user, tuple(p))] = rng.choice(PERMS)
         # policies may also answer for the paths of single objects (a regex such as `public(/.*)?` does)
@@ -102,7 +102,7 @@ def run_policy(ctx, rng, pid):
     permit_delete = rng.random() < 0.5
     permit_overwrite = rng.random() < 0.5
     table, default = gen_policy(rng)
-    user = rng.choice(["u", "u", "v", ""])
+    user = rng.choice(["u", "u", "v", "", "x"])        # "x" has no home collection yet: its first request may create one
     roots = hidden_roots(table, default, user)
     # the twin differs only inside hidden subtrees
     extra = []
@@ -167,6 +167,13 @@ def run_policy(ctx, rng, pid):
                     if not any(x in perms for x in letters):
                         ctx.violation("an item of /%s is shown to %r although the policy gives %r there" % ("/".join(cp), user, perms), case)
                         break
+            # oracle 3a: the home collection of a user appears on the first request only if the policy gives `W` there
+            if user:
+                had = any(e["path"] == [user] for e in dump_before)
+                has = any(e["path"] == [user] for e in sim.real_dump())
+                if has and not had and "W" not in table.get((user, (user,)), default) and r.get("path") != [user]:
+                    ctx.violation("the home collection /%s was created although the policy gives %r there (no 'W')" % (
+                        user, table.get((user, (user,)), default)), case)
             # oracle 3: what changed is writable for the user
             if st < 300 and user:
                 dump_after = sim.real_dump()
